@@ -89,6 +89,12 @@ lines.append("* **C14-w2m2** (a stale Location kept from an interim 1xx head whe
 lines.append("  one flow, the first a non-100 1xx carrying a Location; no scenario sends unsolicited 1xx heads with a Location.")
 lines.append("* **C17-w2m2** (extension methods such as PROPFIND, or lower-case `get`, accepted on HTTP/1.1): C17's quantifier is over")
 lines.append("  the standard methods; extension tokens are not generated.")
+lines.append("* **C09-w3m1** (the analysed flag is set before validation, so a retried write of an invalid request goes through):")
+lines.append("  again only reachable with a request C17 rejects; C17 reports it, including the follow-up panic.")
+lines.append("* **C05-w3m1** (a stale \"nothing new arrived\" cache that is not reset when a 100 Continue is consumed): needs a 100 on")
+lines.append("  the flow, which C05 excludes by its statement (status 100 belongs to C11); C11 and C01 report it.")
+lines.append("* **C10-w3m2** (response bookkeeping only for the first response on a flow): needs a non-100 interim head (103) that the")
+lines.append("  caller keeps polling past; C10 sends none. C15's unsolicited-100 case reports it (`C15.no_redirect_state`).")
 sec = "\n".join(lines) + "\n"
 p = os.path.join(VERIF, "DESIGN.md")
 s = open(p).read()
